@@ -89,7 +89,7 @@ def effects_of(fn):
                 yield b, j, st, 'call ' + short(callee_name(x))
 
 
-def classify(fn, facts_list, devfield, size_id, data_id):
+def classify(fn, facts_list, devfield, size_id, data_id, facts=None):
     kinds = set()
     for f in facts_list:
         # device: a true disjunction/equality whose alternatives are equalities on the device byte and one mentions the id field
@@ -143,6 +143,7 @@ def classify(fn, facts_list, devfield, size_id, data_id):
                         kinds.add('min-size')
             if f[1] == '==':
                 def last_byte(x):
+                    x = canon_access(x) if x.get('k') == 'UnaryOperator' else x
                     if x.get('k') != 'ArraySubscriptExpr':
                         return False
                     i = strip(x['i'])
@@ -152,6 +153,8 @@ def classify(fn, facts_list, devfield, size_id, data_id):
                     other = f[3] if mentions(f[2], last_byte) else f[2]
                     other = strip(other)
                     if other.get('k') == 'DeclRefExpr' and _is_checksum_local(fn, other['id'], data_id):
+                        kinds.add('checksum')
+                    if 'callee' in other and facts is not None and _is_checksum_helper(facts, fn, other, data_id, size_id):
                         kinds.add('checksum')
     return kinds
 
@@ -177,6 +180,43 @@ def _is_checksum_local(fn, vid, data_id):
                         if m.get('k') == 'BinaryOperator' and m['op'] == '&' and const_of(m['r']) == 127 and strip(m['l']).get('id') == vid:
                             fin = True
     return acc and fin
+
+
+def _is_checksum_helper(facts, fn, call, data_id, size_id):
+    """the call hands the payload pointer and its size to a local helper that sums the bytes and returns (128 - (sum & 127)) & 127"""
+    for cf in facts.fns.get(callee_name(call), [])[:1]:
+        if not is_local_helper(fn, cf):
+            return False
+        args = call.get('a') or []
+        pp = [i_ for i_, a in enumerate(args) if strip(a).get('id') == data_id]
+        ps = [i_ for i_, a in enumerate(args) if strip(a).get('id') == size_id]
+        if len(pp) != 1 or len(ps) != 1:
+            return False
+        p_data, p_size = cf.params[pp[0]]['id'], cf.params[ps[0]]['id']
+        # the summing loop runs over all `size` bytes
+        loops = [x for x in walk(cf.tree) if isinstance(x, dict) and x.get('k') in ('ForStmt', 'WhileStmt') and x.get('cond') is not None]
+        full = any(strip(l_['cond']).get('k') == 'BinaryOperator' and strip(l_['cond']).get('op') == '<' and strip(strip(l_['cond'])['r']).get('id') == p_size for l_ in loops)
+        for b, j, st in cf.cfg.returns():
+            e = st['s'].get('e')
+            if e is None:
+                continue
+            for y in walk(e):
+                if isinstance(y, dict) and y.get('k') == 'DeclRefExpr' and not y.get('parm'):
+                    # a local of the helper that is accumulated from the bytes; the return expression finishes it
+                    acc = any(assign_parts(z) and strip(assign_parts(z)[0]).get('id') == y.get('id') and assign_parts(z)[2] == '+=' and
+                              mentions(assign_parts(z)[1], lambda w: w.get('k') == 'DeclRefExpr' and w.get('id') == p_data) for z in walk(cf.tree) if isinstance(z, dict))
+                    r = strip(e)
+                    while isinstance(r, dict) and (r.get('k') or '').endswith('CastExpr'):
+                        r = strip(r.get('e'))
+                    fin = False
+                    if r.get('k') == 'BinaryOperator' and r['op'] == '&' and const_of(r['r']) == 127:
+                        a = strip(r['l'])
+                        if a.get('k') == 'BinaryOperator' and a['op'] == '-' and const_of(a['l']) == 128:
+                            m = strip(a['r'])
+                            fin = m.get('k') == 'BinaryOperator' and m['op'] == '&' and const_of(m['r']) == 127 and strip(m['l']).get('id') == y.get('id')
+                    if acc and fin and full:
+                        return True
+    return False
 
 
 def size_updates_constant(fn, size_id):
@@ -236,8 +276,8 @@ def remaining_size_flow(fn, size_id, data_id, entry_state):
         if 'cond' in b:
             items.append(b['cond']); locs.append(b.get('cloc', '?'))
         for s, loc in zip(items, locs):
-            # reads first (statement order inside a root is approximated: reads before updates)
-            for x in walk(s):
+            # reads first (statement order inside a root is approximated: reads before updates); `*(data + k)` is data[k]
+            for x in walk(canon_access(s)):
                 if x.get('k') == 'ArraySubscriptExpr' and strip(x['b']).get('id') == data_id:
                     i = strip(x['i'])
                     c = const_of(x['i'])
@@ -259,6 +299,11 @@ def remaining_size_flow(fn, size_id, data_id, entry_state):
                                     l_ = strip(f[2]) if f[0] == 'cmp' else None
                                     if f[0] == 'cmp' and f[1] in ('<', '<=') and l_.get('k') == 'BinaryOperator' and l_.get('op') == '+' and strip(f[3]).get('id') == size_id and \
                                             strip(l_['l']).get('id') == i.get('id') and (const_of(l_['r']) or 0) >= (0 if f[1] == '<' else 1):
+                                        bounded = True
+                                    # `i < size - k`, k >= 0, where size >= k is known (no wrap-around of the unsigned difference)
+                                    r_ = strip(f[3]) if f[0] == 'cmp' else None
+                                    if f[0] == 'cmp' and f[1] == '<' and strip(f[2]).get('id') == i.get('id') and r_.get('k') == 'BinaryOperator' and r_.get('op') == '-' and \
+                                            strip(r_['l']).get('id') == size_id and const_of(r_['r']) is not None and 0 <= const_of(r_['r']) <= lb:
                                         bounded = True
                         need((lb, d), loc, show(x), bounded and d >= 0, symbolic_size=True)
             for x in walk(s):
@@ -389,8 +434,8 @@ def analyse(facts, tier):
         eff = list(effects_of(h))
         eff_blocks = {}
         for b, j, st, what in eff:
-            fl = guard_facts(h, b, st, sd)
-            kinds = classify(h, fl, devfield, size['id'], data['id'])
+            fl = expand_helper_calls(facts, guard_facts(h, b, st, sd))      # `if(!isGsDeviceNumber(dev)) break;` reads as the test it names
+            kinds = classify(h, fl, devfield, size['id'], data['id'], facts)
             need = {'device', 'exact-size'} | ({'checksum'} if roland else set())
             if not const_upd:
                 kinds.discard('exact-size')
@@ -519,7 +564,7 @@ def data_screen(fn, data_id, size_id, call_block):
     k <= 1 (the frame byte itself may be included).  Returns a description or None."""
     def rec(t):
         if isinstance(t, dict):
-            if t.get('k') == 'ForStmt':
+            if t.get('k') in ('ForStmt', 'WhileStmt'):
                 yield t
             for k2 in ('body', 'then', 'else', 'sub'):
                 v = t.get(k2)
@@ -541,6 +586,19 @@ def data_screen(fn, data_id, size_id, call_block):
             ap = assign_parts(y) if isinstance(y, dict) else None
             if ap and strip(ap[0]).get('k') == 'DeclRefExpr':
                 iv, start = strip(ap[0])['id'], const_of(ap[1])
+        if loop.get('k') == 'WhileStmt':
+            # `i = k; while(i < n) { ..; i++; }`: the counter is the left operand of the condition, defined with a constant before the
+            # loop and written nowhere else than by one increment inside the body
+            c0 = strip(loop.get('cond'))
+            cand = strip(c0['l']) if c0 is not None and c0.get('k') == 'BinaryOperator' else None
+            while cand is not None and cand.get('k') == 'BinaryOperator':
+                cand = strip(cand['l'])
+            if cand is not None and cand.get('k') == 'DeclRefExpr':
+                writes = [y for y in walk(fn.tree) if isinstance(y, dict) and ((assign_parts_raw(y) and strip(assign_parts_raw(y)[0]).get('id') == cand['id']) or (is_incdec(y) and strip(y['e']).get('id') == cand['id']))]
+                in_body = [y for y in walk(loop.get('body')) if isinstance(y, dict) and any(y is w for w in writes)]
+                decl = [v for y in walk(fn.tree) if isinstance(y, dict) and y.get('k') == 'DeclStmt' for v in y.get('decls', []) if v['id'] == cand['id']]
+                if len(writes) == 1 and len(in_body) == 1 and is_incdec(writes[0]) and writes[0]['op'] == '++' and decl and const_of(decl[0].get('init')) is not None:
+                    iv, start = cand['id'], const_of(decl[0]['init'])
         if iv is None or start is None or start > 1:
             continue
         c = strip(loop.get('cond'))
@@ -562,7 +620,7 @@ def data_screen(fn, data_id, size_id, call_block):
                 m = [z for z in walk(y.get('cond')) if isinstance(z, dict) and z.get('k') == 'BinaryOperator' and (
                      (z.get('op') == '&' and 0x80 in (const_of(z['l']), const_of(z['r']))) or
                      (z.get('op') == '>=' and const_of(z['r']) == 0x80) or (z.get('op') == '>' and const_of(z['r']) == 0x7F))]
-                sub = [z for z in walk(y.get('cond')) if isinstance(z, dict) and z.get('k') == 'ArraySubscriptExpr' and strip(z['b']).get('id') == data_id and strip(z['i']).get('id') == iv]
+                sub = [z for z in walk(canon_access(y.get('cond'))) if isinstance(z, dict) and z.get('k') == 'ArraySubscriptExpr' and strip(z['b']).get('id') == data_id and strip(z['i']).get('id') == iv]
                 ret = [z for z in walk(y.get('then')) if isinstance(z, dict) and z.get('k') == 'ReturnStmt' and const_of(z.get('e')) == 0]
                 if m and sub and ret:
                     rejects = True
@@ -570,7 +628,7 @@ def data_screen(fn, data_id, size_id, call_block):
             continue
         # the loop precedes the call: its header block dominates the call block
         for bid, blk in fn.cfg.blocks.items():
-            if blk.get('term') == 'ForStmt' and blk.get('cond') is not None and show(blk['cond']) == show(loop.get('cond')) and fn.cfg.block_dominates(bid, call_block):
+            if blk.get('term') in ('ForStmt', 'WhileStmt') and blk.get('cond') is not None and show(blk['cond']) == show(loop.get('cond')) and fn.cfg.block_dominates(bid, call_block):
                 return 'loop at line %s' % loop.get('ln')
     return None
 
